@@ -22,7 +22,7 @@ fn versions(lang: Lang) -> Vec<(&'static str, Vec<(&'static str, String)>)> {
     // the same length in every language, and far beyond the first 8 KiB / 64 KiB of the output: one member renamed
     let large_changed = large.replace("pub struct Big699 { pub first_field_of_the_struct: u32", "pub struct Big699 { pub first_field_of_the_strucx: u32");
     debug_assert_ne!(large, large_changed);
-    // order matters: the quick tier takes the first seven
+    // order matters: the quick tier takes the first eight (the graphs run with a configuration file: the first six)
     vec![
         ("V0-base", vec![("ws/x/src/lib.rs", format!("{a}\n{b}"))]),
         ("V1-type-added", vec![("ws/x/src/lib.rs", format!("{a}\n{b}\n{c}"))]),
@@ -30,6 +30,9 @@ fn versions(lang: Lang) -> Vec<(&'static str, Vec<(&'static str, String)>)> {
         // only the alphabetically later crate differs from V3 (the earlier crate's file is already up to date)
         ("V7-later-crate-changed", vec![("ws/x/src/lib.rs", a.to_string()), ("ws/y/src/lib.rs", format!("use x::Alpha;\n{b_renamed}\n{unit_user}"))]),
         ("V4-uses-unit", vec![("ws/x/src/lib.rs", format!("{a}\n{unit_user}"))]),
+        // the sources of V4 under another configuration (only the graphs run with a configuration file see the difference):
+        // other list-valued settings for the same helper
+        ("V11-uses-unit-other-configuration", vec![("ws/x/src/lib.rs", format!("{a}\n{unit_user}")), ("cfg/typeshare.toml", "[swift]\ndefault_decorators = [\"Hashable\"]\ncodablevoid_constraints = [\"Equatable\"]\n\n[go]\nuppercase_acronyms = [\"ID\"]\n".to_string())]),
         ("V9-large-output", vec![("ws/x/src/lib.rs", format!("{a}\n{large}"))]),
         // differs from V9 only near the end of a large output, by bytes only: every file has the same length as before
         ("V10-large-output-tail-changed-same-length", vec![("ws/x/src/lib.rs", format!("{a}\n{large_changed}"))]),
@@ -89,7 +92,11 @@ fn step(lang: Lang, multi: bool, loc: &str, version: &[(&'static str, String)], 
     if loc == "configured" {
         // every multi-valued setting with several entries: their order in the output is part of the bytes
         let toml = "[swift]\ndefault_decorators = [\"Sendable\", \"Identifiable\"]\ndefault_generic_constraints = [\"Sendable\", \"Hashable\", \"Equatable\"]\ncodablevoid_constraints = [\"Equatable\", \"Hashable\", \"Comparable\", \"Sendable\"]\n\n[go]\nuppercase_acronyms = [\"ID\", \"URL\", \"API\"]\n\n[typescript.type_mappings]\nBlob = \"Uint8Array\"\nStamp = \"Date\"\n\n[kotlin.type_mappings]\nBlob = \"ByteArray\"\nStamp = \"String\"\n";
-        let p = sc.write("cfg/typeshare.toml", toml.as_bytes());
+        // (a version may bring its own configuration file)
+        let p = sc.path("cfg/typeshare.toml");
+        if !p.exists() {
+            sc.write("cfg/typeshare.toml", toml.as_bytes());
+        }
         args.extend([s("-c"), p.to_string_lossy().into_owned()]);
     }
     args.extend([s(if multi { "-d" } else { "-o" }), sc.path(&out_rel(lang, multi)).to_string_lossy().into_owned()]);
@@ -241,9 +248,9 @@ pub fn run(args: &[String]) -> i32 {
     const L: &str = "through-symlink";
     const G: &str = "configured";
     let graphs: Vec<(Lang, bool, &'static str, usize)> = if thorough {
-        ALL_LANGS.iter().flat_map(|l| [(*l, false, P, 11), (*l, true, P, 11), (*l, false, L, 7), (*l, true, L, 7), (*l, false, G, 7), (*l, true, G, 7)]).collect()
+        ALL_LANGS.iter().flat_map(|l| [(*l, false, P, 12), (*l, true, P, 12), (*l, false, L, 8), (*l, true, L, 8), (*l, false, G, 8), (*l, true, G, 8)]).collect()
     } else {
-        vec![(Lang::Swift, true, P, 7), (Lang::Swift, false, P, 7), (Lang::TypeScript, true, P, 7), (Lang::TypeScript, false, P, 7), (Lang::Kotlin, true, P, 7), (Lang::Swift, false, L, 4), (Lang::Go, false, L, 4), (Lang::Swift, true, L, 4), (Lang::Swift, true, G, 5), (Lang::Swift, false, G, 5), (Lang::Go, false, G, 5)]
+        vec![(Lang::Swift, true, P, 8), (Lang::Swift, false, P, 8), (Lang::TypeScript, true, P, 8), (Lang::TypeScript, false, P, 8), (Lang::Kotlin, true, P, 8), (Lang::Swift, false, L, 4), (Lang::Go, false, L, 4), (Lang::Swift, true, L, 4), (Lang::Swift, true, G, 6), (Lang::Swift, false, G, 6), (Lang::Go, false, G, 6)]
     };
     let results = par_map(&graphs, report::threads(), |(l, m, loc, n)| explore_graph(*l, *m, loc, *n, 400));
     let mut states = 0;
